@@ -107,7 +107,13 @@ async def produce_workload(loop, src, cluster, cfg, plan, tasks_spec, res):
             key, value = b"k%d-%d" % (j, i), b"v%d-%d" % (j, i)
             ts = 1000 + 10 * j + i if cfg.get("explicit_ts") else None
             try:
-                fut = await producer.send("t", value=value, key=key, partition=p, timestamp_ms=ts)
+                if j in cfg.get("send_batch_tasks", ()):
+                    # the batch API: a caller-built batch of one record (no per-record futures in the library)
+                    bb = producer.create_batch()
+                    bb.append(key=key, value=value, timestamp=ts)
+                    fut = await producer.send_batch(bb, "t", partition=p)
+                else:
+                    fut = await producer.send("t", value=value, key=key, partition=p, timestamp_ms=ts)
             except Exception as e:  # noqa: BLE001
                 sends.append(dict(task=j, i=i, p=p, key=key, value=value, fut=None, exc=e, ts=ts))
                 continue
@@ -159,6 +165,7 @@ def run_producer(src, cfg, tasks_spec, menu, max_requests, max_faults, topics=No
     cluster = simkafka.Cluster(nodes=(0, 1), topics=topics or {"t": 2},
                                log_append_time=("t",) if cfg.get("log_append_time") else (),
                                versions=cfg.get("versions"))
+    cluster.duplicates_answered_with_46 = bool(cfg.get("dup46"))
     plan = FaultPlan(src, menu, {0, 3} if cfg.get("fault_metadata", True) else {0}, max_requests, max_faults)
     cluster.fault_fn = plan
     res = {"cluster": cluster, "plan": plan}
